@@ -61,5 +61,7 @@ RECURSIVE CountMembers(_, _)
 CountMembers(ops, i) == IF i > Len(ops) THEN 0 ELSE (IF ops[i].op = "base" THEN CountMembers(ops[i].ops, 1) ELSE 1) + CountMembers(ops, i + 1)
 MapHeaderCounts == root.k = "obj" => Decode(EncTree(Tree, {}), 1).v = <<"map", DocOf(Tree)[2]>> /\ Len(DocOf(Tree)[2]) = CountMembers(root.ops, 1)
 
-Export == PrintT(<<"GEN", ToJson([root |-> root])>>)
+RtPol == [mm |-> "throw", ov |-> "throw", arch |-> "msgpack", dev |-> ""]
+\* C01: what loading the saved document back with the same script must deliver (the abstract document, independent of the bytes)
+Export == PrintT(<<"GEN", ToJson([root |-> root, exp |-> Exec(DocOf(Tree), root, RtPol), expsave |-> "ok"])>>)
 =============================================================================
